@@ -296,6 +296,19 @@ def execute(sim, plan):
                     return
                 sim.probe("lock_contention_gave_up")
                 sim.event(name, kind, "LockContention")
+            except Exception as e:  # noqa: BLE001
+                if me.dead:
+                    return
+                # A WRITER may lose a race: its write group is then not acknowledged and
+                # the property promises nothing about it.  Only the documented
+                # "packs changed under me" family is accepted; readers get no such excuse.
+                text = f"{type(e).__name__}: {e}"
+                retry_family = type(e).__name__ in ("NoSuchFile", "RetryWithNewPacks", "RetryAutopack", "RetryPackOperations") or "pack listing changed" in text or "Pack files have changed" in text
+                if kind == "read" or not retry_family:
+                    raise
+                sim.probe("writer_lost_race_" + kind)
+                sim.event(name, kind, "lost-race", type(e).__name__)
+                return  # later commits of this actor build on the one that was not made
             finally:
                 g.in_wg.discard(name)
 
@@ -321,6 +334,8 @@ def execute(sim, plan):
             oracle = "actor_failed"
             if set(re.findall(r"[0-9a-f]{32}", str(a.exc))) & g.dup_names():
                 oracle, site = "durability", "dangling-pack-names-entry:duplicate-pack-name"
+            elif type(a.exc).__name__ == "BadIndexData" and g.dup_names():
+                site = "BadIndexData:duplicate-pack-name"
             elif n in g.failed_in_pack and re.search(r"\.[rits]ix|\.cix", g.failed_in_pack[n]) and g.failed_in_pack[n] in str(a.exc):
                 site = "NoSuchFile:index-read-inside-pack-operation"
             sim.fail(oracle, [oracle, "preempt", site], f"actor {n} ({plan['actors'][n]}) failed with {type(a.exc).__name__}: {a.exc}\n{tb}")
